@@ -215,6 +215,25 @@ def ops_on(e, mode="full", rich=True):
         (n0, s0), (n1, s1) = reals[0], reals[1]
         out.append(("subs-real:mixed-batched", ("subs", e, ((n0, rt(n0, s0, ())), (n1, rt(n1, s1, bdep))))))
 
+    # The order-of-pairs and simultaneity variants below do not depend on the rank: in the quick tier (rich False) they
+    # are generated for square leaves (rank == dim) and for composed terms only; in thorough for ranks {dim-1, dim, 2dim+1}.
+    extra = full and leaf_rank(e) in ((None, dim - 1, dim, 2 * dim + 1) if rich else (None, dim))
+
+    # ---- the same multi-key real substitutions with the pairs in every other order (Subs(e, pairs) directly), and
+    #      reached through an enclosing lazy sum whose own input order is the reverse (substitute() hands every child
+    #      the pairs in the order of the enclosing term's inputs)
+    if extra:
+        for sub in [c for c in subsets if len(c) >= 2]:
+            tag = "all" if len(sub) == len(reals) else "partial"
+            for perm in list(itertools.permutations(sub))[1:]:
+                out.append(("subs-real:ordered-ground-" + tag, ("osubs", e, tuple((n, rt(n, s, ())) for n, s in perm))))
+                out.append(("subs-real:ordered-batched-" + tag, ("osubs", e, tuple((n, rt(n, s, bdep)) for n, s in perm))))
+            lin = ("lin", tuple((n, s, float(2 + j)) for j, (n, s) in enumerate(sub[::-1])))
+            lazy = ("add", lin, e)
+            out.append(("subs-real:via-lazy-sum-ground-" + tag, ("subs", lazy, tuple((n, rt(n, s, ())) for n, s in sub))))
+            if tag == "partial":
+                out.append(("subs-real:via-lazy-sum-batched-" + tag, ("subs", lazy, tuple((n, rt(n, s, bdep)) for n, s in sub))))
+
     # ---- integer index / slice / index tensor for a batch input
     for n, s in batch:
         ks = sorted({0, s - 1}) if full else [s - 1]
@@ -282,6 +301,28 @@ def ops_on(e, mode="full", rich=True):
                 if m != n:
                     out.append(("affine:scale-self-and-other", ("subs", e, ((n, ("scale", n)), (m, ("scale", u))))))
                     break
+    # ---- simultaneity: input a gets an affine value that mentions the caller's variable named b, while the same
+    #      substitution binds b (to a constant, a batched constant, another affine value, a renaming)
+    if extra:
+        for (a, sa), (b, sb) in itertools.permutations(reals, 2):
+            forms = []
+            if sa == sb:
+                forms += [("scale", b), ("sum2", u, b)]
+            if len(sb) == max(len(sa), 1) and sb[1:] == sa[1:]:
+                forms.append(("matvec", b, sb, 40, ()))
+            if sb == (2,) + sa:
+                forms.append(("getitem", b, sb, 1))
+            bvals = [("const", rt(b, sb, ())), ("affine", ("scale", v)), ("rename", ("var", v))]
+            if rich:
+                bvals.append(("const-batched", rt(b, sb, bdep)))
+            for form in forms:
+                for bl, bv in bvals:
+                    out.append(("affine:uses-key-bound-to-" + bl, ("subs", e, ((a, form), (b, bv)))))
+                    if rich or bl == "const":
+                        # Subs directly, pairs in the order opposite to the inputs (x(**kw) above uses the inputs' order)
+                        rev = ((b, bv), (a, form)) if list(t).index(a) < list(t).index(b) else ((a, form), (b, bv))
+                        out.append(("affine:uses-key-bound-to-" + bl + "-ordered", ("osubs", e, rev)))
+
     if len(reals) >= 2:
         (n0, s0), (n1, s1) = reals[0], reals[1]
         if s0 == s1 and full:
@@ -540,8 +581,12 @@ def short(e):
         return str(e[1])
     if tag == "add":
         return "(%s + %s)" % (short(e[1]), short(e[2]))
+    if tag == "lin":
+        return "(" + " + ".join("%g*%s" % (c, n) for n, sh, c in e[1]) + ")"
     if tag == "subs":
         return "%s(%s)" % (short(e[1]), ", ".join("%s=%s" % (n, v[0] + str(list(v[1:]))) for n, v in e[2]))
+    if tag == "osubs":
+        return "Subs(%s, [%s])" % (short(e[1]), ", ".join("%s=%s" % (n, v[0] + str(list(v[1:]))) for n, v in e[2]))
     if tag == "align":
         return "%s.align(%s)" % (short(e[1]), ",".join(e[2]))
     if tag == "compress":
@@ -613,6 +658,16 @@ def build(e, seed):
         return Tensor(G.tensor_data(e[1], e[2], (), seed), _fin(e[2]))
     if tag == "N":
         return Number(float(e[1]))
+    if tag == "lin":
+        from funsor.domains import Reals
+        from funsor.terms import Variable
+
+        total = None
+        for n, shape, coef in e[1]:
+            v = Variable(n, Reals[tuple(shape)])
+            term = float(coef) * (v.sum() if shape else v)
+            total = term if total is None else total + term
+        return total
     if tag == "add":
         return build(e[1], seed) + build(e[2], seed)
     if tag == "subs":
@@ -620,6 +675,12 @@ def build(e, seed):
         x = build(e[1], seed)
         subs = {n: build_value(val, inner[n], seed) for n, val in e[2] if n in inner}
         return x(**subs)
+    if tag == "osubs":
+        from funsor.terms import Subs
+
+        inner = G.ty(e[1])
+        x = build(e[1], seed)
+        return Subs(x, tuple((n, build_value(val, inner[n], seed)) for n, val in e[2] if n in inner))
     if tag == "align":
         return build(e[1], seed).align(tuple(e[2]))
     if tag == "compress":
@@ -639,7 +700,7 @@ from collections import OrderedDict
 import funsor
 from funsor import Bint, Real, Reals, Tensor, Number, Variable
 from funsor.gaussian import Gaussian
-from funsor.terms import Cat, Slice
+from funsor.terms import Cat, Slice, Subs
 from funsor.interpretations import compress_gaussians
 from funsor.interpreter import reinterpret
 funsor.set_backend("numpy")
@@ -711,6 +772,16 @@ def code(e, seed):
         return "Tensor(%s, %s)" % (_arr(G.tensor_data(e[1], e[2], (), seed)), _fincode(e[2]))
     if tag == "N":
         return "Number(%r)" % float(e[1])
+    if tag == "lin":
+        return "(%s)" % " + ".join(
+            "%r * Variable(%r, %s)%s" % (float(c), n, _domcode(("r", tuple(sh))), ".sum()" if sh else "") for n, sh, c in e[1]
+        )
+    if tag == "osubs":
+        inner = G.ty(e[1])
+        return "Subs(%s, (%s,))" % (
+            code(e[1], seed),
+            ", ".join("(%r, %s)" % (n, value_code(v, inner[n], seed)) for n, v in e[2] if n in inner),
+        )
     if tag == "add":
         return "(%s\n   + %s)" % (code(e[1], seed), code(e[2], seed))
     if tag == "subs":
@@ -882,7 +953,7 @@ def subterms(e):
     out = []
     if tag == "add":
         out += subterms(e[1]) + subterms(e[2])
-    elif tag in ("subs", "align", "compress"):
+    elif tag in ("subs", "osubs", "align", "compress"):
         out += subterms(e[1])
     elif tag == "cat":
         for p in e[3]:
@@ -905,14 +976,18 @@ def site_of(e):
         return "compress_rank" if e[3] > 2 * dim else "Gaussian.eager_subs:real"
     if tag == "C":
         return "constructor:%s+%s" % (e[3], e[4])
+    if tag == "lin":
+        return "lazy-linear-term"
     if tag == "add":
         kinds = sorted(x[0] for x in (e[1], e[2]))
+        if "lin" in kinds:
+            return "lazy-linear-term+Gaussian"
         if "T" in kinds:
             return "Gaussian+Tensor"
         if "N" in kinds:
             return "Gaussian+Number"
         return "Gaussian+Gaussian"
-    if tag == "subs":
+    if tag in ("subs", "osubs"):
         inner = G.ty(e[1])
         ks = set()
         for n, v in e[2]:
@@ -935,13 +1010,15 @@ def features_of(e, label):
     t = G.ty(e)
     if label:
         op = label.split(" > ")[-1]
-    elif e[0] == "subs":
-        op = "subs:" + ",".join(sorted({v[0] for _, v in e[2]}))
+    elif e[0] in ("subs", "osubs"):
+        op = e[0] + ":" + ",".join(sorted({v[0] for _, v in e[2]}))
     else:
         op = e[0]
     f = {"op": op}
     d = {"depth": max(size(e) - 1, 0)}
-    arg = e[1] if e[0] in ("subs", "align", "compress", "add") else (e[3][0] if e[0] == "cat" else e)
+    arg = e[1] if e[0] in ("subs", "osubs", "align", "compress", "add") else (e[3][0] if e[0] == "cat" else e)
+    if arg[0] == "add" and arg[1][0] == "lin":
+        arg = arg[2]
     if arg[0] not in ("G", "C") and e[0] == "add" and e[2][0] in ("G", "C"):
         arg = e[2]
     ta = G.ty(arg)
@@ -958,13 +1035,23 @@ def features_of(e, label):
     if kr is not None:
         d["rank"] = kr
         f["rank_class"] = rank_class(dim, kr)
-    if e[0] == "subs":
+    if e[0] in ("subs", "osubs"):
         d["value_kinds"] = ",".join(sorted({v[0] for n, v in e[2] if n in ta}))
         d["n_subs"] = len(e[2])
         f["batched_value"] = any(v[0] in ("rt", "matvec") and len(v[2] if v[0] == "rt" else v[4]) > 0 for n, v in e[2])
         # the substituted (affine) value mentions the very input it replaces, e.g. g(x=2*x-1)
         f["self_reference"] = any(v[0] in ("scale", "sum2") and n in v[1:] for n, v in e[2])
-        if f["self_reference"]:
+        # an affine value mentions (the caller's) variable whose name is ANOTHER key of the same substitution:
+        # which kind of value is that other key bound to ("none" | "const" | "affine" | "rename" | "int", joined by +)
+        bound = {n: ("rename" if v[0] == "var" else "const" if v[0] == "rt" else "affine" if v[0] in _AFFINE else "int") for n, v in e[2]}
+        hit = set()
+        for n, v in e[2]:
+            if v[0] in _AFFINE:
+                for m in (set(v[1:3]) if v[0] == "sum2" else {v[1]}) & (set(bound) - {n}):
+                    hit.add(bound[m])
+        f["mentions_key_bound_to"] = "+".join(sorted(hit)) or "none"
+        f["pairs_in_input_order"] = [n for n, _ in e[2] if n in ta] == [n for n in ta if n in bound]
+        if f["self_reference"] or "affine" in hit:
             f.pop("rank_class", None)
             f.pop("interleaved", None)
     if e[0] == "cat":
